@@ -4,7 +4,9 @@ Counts `line` trace events in frames whose code lives under the cardutil package
 StepBudgetExceeded (a BaseException, so no `except Exception` swallows it) when the limit is
 passed.  The count is a function of code and input only, so a hang is a replayable verdict."""
 import os
+import signal
 import sys
+import threading
 
 from . import sut
 
@@ -15,9 +17,17 @@ class StepBudgetExceeded(BaseException):
         self.where = where
 
 
+WALL_S = 10.0   # per consumer run; ordinary runs take milliseconds
+
+
 class Budget:
-    def __init__(self, limit: int):
+    """line-step budget, plus a generous wall-clock limit for time spent inside C code (a regular
+    expression that backtracks for ever executes no Python line; the sre engine does honour signals)"""
+
+    def __init__(self, limit: int, wall_s: float = WALL_S):
         self.limit = limit
+        self.wall_s = wall_s
+        self._old_handler = None
         self.steps = 0
         self.prefix = os.path.join(os.path.realpath(sut.REPO), "cardutil") + os.sep
         self._prev = None
@@ -41,13 +51,25 @@ class Budget:
                 raise StepBudgetExceeded(f"{frame.f_code.co_name}:{frame.f_lineno}")
         return self._local
 
+    def _on_alarm(self, signum, frame):
+        sys.settrace(None)
+        where = f"{frame.f_code.co_name}:{frame.f_lineno}" if frame is not None else "?"
+        raise StepBudgetExceeded(f"{where} (wall clock: {self.wall_s:.0f}s without finishing, time spent inside C code)")
+
     def __enter__(self):
         self._prev = sys.gettrace()
+        if self.wall_s and threading.current_thread() is threading.main_thread():
+            self._old_handler = signal.signal(signal.SIGALRM, self._on_alarm)
+            signal.setitimer(signal.ITIMER_REAL, self.wall_s)
         sys.settrace(self._global)
         return self
 
     def __exit__(self, *a):
         sys.settrace(self._prev)
+        if self._old_handler is not None:
+            signal.setitimer(signal.ITIMER_REAL, 0)
+            signal.signal(signal.SIGALRM, self._old_handler)
+            self._old_handler = None
         return False
 
 
